@@ -473,6 +473,8 @@ def m_append(I, st, s, x):
         I.oblige(st, 'not_none[append]', z3.Not(x.is_none))
         x = x.val
     _fix_seq_kind(s, x.kind)
+    if isinstance(s.ek, tuple) and s.ek[0] == 'opaque' and not (isinstance(x, VOpaque) and x.t is not None):
+        x = fresh_value(s.ek, 'untracked')      # an untracked object stored in a list of untracked objects
     s.arr = z3.Store(s.arr, s.length, to_term(x, s.ek))
     s.length = s.length + 1
     return VNone()
@@ -1745,3 +1747,31 @@ def s_np_sin(I, st, args, kwargs):
         conv = (lambda t: z3.ToReal(t)) if a.ek == 'int' else (lambda t: t)
         return VSeq('real', a.length, z3.Lambda([i], SIN(conv(a.arr[i]))), flavor='array', dtype='float64')
     return VReal(SIN(_real(a)))
+
+
+# ----------------------------------------------------------------------------- files, progress bars, misc objects (C08)
+@objmethod('File', 'readline')
+def file_readline(I, st, f):
+    return VStr('')
+
+
+@objmethod('File', 'close')
+def file_close(I, st, f):
+    return VNone()
+
+
+@stub('deque', 'collections.deque')
+def s_deque(I, st, args, kwargs):
+    return VObj('deque', {})
+
+
+@stub('defaultdict', 'collections.defaultdict')
+def s_defaultdict(I, st, args, kwargs):
+    return VObj('defaultdict', {})
+
+
+def m_opaque_copy(I, st, v):
+    return v
+
+
+_METHODS[(VOpaque, 'copy')] = m_opaque_copy
